@@ -747,7 +747,8 @@ func (c *Constraint) CheckConstraint(param string) bool {
 			}
 		}
 	case guidConstraint:
-		_, err = uuid.Parse(param)
+		// Validate, unlike Parse, insists on braces around a 38 character value
+		err = uuid.Validate(param)
 	case minLenConstraint:
 		data, _ := strconv.Atoi(c.Data[0])
 
